@@ -104,7 +104,7 @@ func sessionStateAfterAuth(c *Ctx, rule string) {
 	targets := []target{{rd, aeadOpenID}}
 	for _, n := range []string{"(*Server).handleSessionMessage", "(*Client).handleSessionMessage"} {
 		if f := P.Func("transport", n); f != nil {
-			targets = append(targets, target{f, hopID("transport", "SessionState", "readPacketLocked")})
+			targets = append(targets, target{handlerBody(P, f), hopID("transport", "SessionState", "readPacketLocked")})
 		} else {
 			c.Undecided(rule, "transport."+n, "function not found")
 		}
